@@ -184,18 +184,23 @@ func (t *tremove) handle(cs *connState) message {
 		}
 	}()
 
-	// Frustratingly, because we can't be guaranteed that a rename is not
-	// occurring simultaneously with this removal, we need to acquire the
-	// global rename lock for this kind of remove operation to ensure that
-	// ref.parent does not change out from underneath us.
-	//
-	// This is why Tremove is a bad idea, and clients should generally use
-	// Tunlinkat. All p9 clients will use Tunlinkat.
-	err := ref.safelyGlobal(func() error {
+	// ref.parent cannot change while the rename lock is held for reading
+	// (every rename holds it for writing), so the removal needs no more
+	// than Tunlinkat does: the directory's path write-locked and, below
+	// it, the entry's. Requests elsewhere in the tree are not held up.
+	err := func() error {
+		cs.server.renameMu.RLock()
+		defer cs.server.renameMu.RUnlock()
+
 		// Is this a root? Can't remove that.
 		if ref.hasParent() {
 			return linux.EINVAL
 		}
+		parent := ref.parent
+		parent.pathNode.opMu.Lock()
+		defer parent.pathNode.opMu.Unlock()
+		ref.pathNode.opMu.Lock()
+		defer ref.pathNode.opMu.Unlock()
 
 		// N.B. this remove operation is permitted, even if the file is open.
 		// See also rename below for reasoning.
@@ -206,18 +211,17 @@ func (t *tremove) handle(cs *connState) message {
 		}
 
 		// Retrieve the file's proper name.
-		name := ref.parent.pathNode.nameFor(ref)
+		name := parent.pathNode.nameFor(ref)
 
 		// Attempt the removal.
-		if err := ref.parent.file.UnlinkAt(name, 0); err != nil {
+		if err := parent.file.UnlinkAt(name, 0); err != nil {
 			return err
 		}
 
-		// Mark all relevant fids as deleted. We don't need to lock any
-		// individual nodes because we already hold the global lock.
-		ref.parent.markChildDeleted(name)
+		// Mark all relevant fids as deleted.
+		parent.markChildDeleted(name)
 		return nil
-	})
+	}()
 
 	// "The remove request asks the file server both to remove the file
 	// represented by fid and to clunk the fid, even if the remove fails."
